@@ -99,6 +99,23 @@ void t4_table(void) {
     VEND();
 }
 
+/* registry entry, names, separator and flags only (cheap) */
+VF_DECL2(t4_meta, in_t4_table)
+void t4_meta(void) {
+    struct in_t4_table IN = VF_IN(t4_meta);
+    (void)IN;
+    const polyseed_lang* L = &REAL;
+    bool reg = false;
+    VASSERT(polyseed_get_num_langs() == 10, "T4 ten languages registered");
+    for (int i = 0; i < 10; ++i) if (polyseed_get_lang(i) == L) reg = true;
+    VASSERT(reg, "T4 language is in the registry");
+    VASSERT(str_eq(polyseed_get_lang_name(L), GOLD_NAME) && str_eq(polyseed_get_lang_name_en(L), GOLD_NAME_EN), "T4 language names as published");
+    VASSERT(str_eq(L->separator, GOLD_SEP), "T4 separator as published (ideographic space for Japanese, ASCII space otherwise)");
+    unsigned flags = (L->is_sorted ? 1 : 0) | (L->has_prefix ? 2 : 0) | (L->has_accents ? 4 : 0) | (L->compose ? 8 : 0);
+    VASSERT(flags == GOLD_FLAGS, "T4 sorted/prefix/accents/compose flags as published (composition for es, fr, jp, ko)");
+    VEND();
+}
+
 /* unsorted lists (Chinese): all words distinct.  PERM is a sorting permutation
  * computed by the driver (auxiliary, untrusted): if the words taken in PERM
  * order are strictly increasing, PERM is injective, hence a bijection on the
